@@ -208,6 +208,48 @@ def _classify(s, got, want, types) -> Tuple[str, str]:
     return "C11.R5", "token-boundaries"
 
 
+def run_long_runs(chk: Check, prog: Program, rid: str = "C11.R6") -> None:
+    """Concrete long inputs (runs of 40 and of 300 characters of one class, runs that end in the function name, long
+    padding): the tokenizer, interpreted from source, must agree with the specification - a window, a chunk size or a
+    recursion limit inside a scanner shows here, the symbolic strings above are too short for it."""
+    chk.rule(rid, "long runs of one character class (40 and 300 characters) tokenize like the specification", minimum=10)
+    tok_cls = prog.cls("Tokenizer")
+    m = prog.func("tokenizer", "Tokenizer.tokenize")
+    tt = prog.cls("TOKEN_TYPES")
+    types = {name: const_fold(prog, tt.module, val) for name, val in tt.class_attrs.items()}
+    texts = []
+    for n in (40, 300):
+        texts += ["7" * n, "7" * (n // 2) + "." + "7" * (n // 2), "x" * n, "a" * (n - 3) + "sgn", "sgn" + "a" * (n - 3),
+                  "7" * (n - 3) + "xyz", "x" * (n - 2) + "42", " " * n + "x", "(" * n, "7" * n + "+" + "x" * n]
+    for exclude in (True, False):
+        for text in texts:
+            def body(it: Interp, text=text, exclude=exclude):
+                t = it.instantiate(tok_cls, [], {"exclude_padding": exclude})
+                it.tok = t
+                return it.call_function(m, [t, text], {})
+            label = f"{text[:12]}... ({len(text)} characters, padding {'dropped' if exclude else 'kept'})"
+            for p in explore(prog, body, {"max_updepth": 0, "max_loop": 2000, "max_steps": 2000000, "time_budget": 120}, max_paths=4):
+                if p.outcome == "bound":
+                    chk.undecided(rid, f"{rid}:bound", label, p.note, m.where)
+                    continue
+                fdict = p.interp.tok.fields.get("functions")
+                functions = [k for k in fdict.items] if isinstance(fdict, Dct) else []
+                want = spec_tokens(text, exclude, functions, types)
+                got: Any = p.exc.exc if p.outcome == "raise" else _instantiate(p.interp, p.value, {})
+                if got == want:
+                    chk.ok(rid, f"{rid}:Tokenizer.tokenize:long-run", label, where=m.where)
+                else:
+                    n_got = len(got) if isinstance(got, list) else got
+                    n_want = len(want) if isinstance(want, list) else want
+                    first = next((i for i, (g_, w_) in enumerate(zip(got, want)) if g_ != w_), None) \
+                        if isinstance(got, list) and isinstance(want, list) else None
+                    chk.fail(rid, f"{rid}:Tokenizer.tokenize:long-run", label,
+                             f"tokenizer gives {n_got} tokens, the specification {n_want}; first difference at token {first}: "
+                             f"{_fmt(got[first:first + 2], types) if first is not None else got} vs "
+                             f"{_fmt(want[first:first + 2], types) if first is not None else want}",
+                             witness={"input_head": text[:40], "length": len(text), "exclude_padding": exclude}, where=m.where)
+
+
 def run(chk: Check) -> None:
     prog = program(chk)
     chk.technique = "abstract interpretation of the tokenizer over symbolic strings (characters as sets split by the code's " \
@@ -226,7 +268,8 @@ def run(chk: Check) -> None:
         "concatenate to the input up to the three normalisations (padding only dropped on request), digit/dot runs are "
         "maximal constants, each letter its own variable unless the whole letter run is a function name, operator and "
         "alias table with the right token types, exactly one end marker at the end, ValueError for every other "
-        "character. A path stands for all strings whose characters lie in the sets the code's comparisons carve out; "
+        "character; twenty concrete long inputs (runs of 40 and 300 characters of one class) tokenize like the "
+        "specification. A path stands for all strings whose characters lie in the sets the code's comparisons carve out; "
         "each path is instantiated with representatives of every specification class inside those sets, including the "
         "range end points. Not decided: strings longer than the bound (the loop body is the same for every further "
         "character; no induction is attempted), code points outside the analysed alphabet.")
@@ -235,5 +278,6 @@ def run(chk: Check) -> None:
         run_tokenize(chk, prog, n, U, f"U{n}")
     for n in ((3, 4) if chk.tier == "quick" else (4,)):
         run_tokenize(chk, prog, n, small, f"S{n}")
+    run_long_runs(chk, prog)
     chk.exhaustive = True
     chk.max_undecided = 0
